@@ -316,11 +316,9 @@ pub fn corpus(pick: u32, large: bool) -> Vec<(DS, String, Known)> {
                     out.push((b, "G5 # 2 (S^2 x S^1) (G5 = flat manifold with holonomy Z6; H1 = Z^3, not a torus)".into(), Known::NotFlat));
                 }
             }
-            if let Some(a) = sum(&g5, &g5, 9) {
-                if let Some(b) = sum(&a, &g5, 10) {
-                    out.push((b, "G5 # G5 # G5 (H1 = Z^3, a non-trivial connected sum)".into(), Known::NotFlat));
-                }
-            }
+            // (G5 # G5 # S^2 x S^1 and G5 # G5 # G5 also have H1 = Z^3 and end in the "connected sum"
+            // branch, but the low-index search over the free product inside pseudo_toroidal_cover
+            // takes 10 minutes and more per call: probed once by hand, not part of the corpus)
         }
     }
     out
